@@ -63,6 +63,15 @@ func (c *client) Dial(ctx context.Context) error {
 		c.conn = conn
 		c.connM.Unlock()
 
+		select {
+		case <-c.done:
+			// the client was closed while we were dialing: fail did not
+			// see the connection, so it's on us to close it
+			conn.Close()
+			return
+		default:
+		}
+
 		// time out send hello if it take long
 		if deadline, ok := ctx.Deadline(); ok {
 			if err = c.conn.SetWriteDeadline(deadline); err != nil {
